@@ -3,12 +3,14 @@ CHECK = {
         suite("pins", "c14", 400, 4000, stdin=True, args=["-suite", "pins"], timeout={"quick": 600, "thorough": 1800}),
         suite("rot", "c14", 400, 4000, stdin=True, args=["-suite", "rot"], timeout={"quick": 600, "thorough": 1800}),
         suite("ps", "c14", 800, 8000, stdin=True, args=["-suite", "ps"], timeout={"quick": 600, "thorough": 1800}),
+        suite("start", "c14", 30, 300, stdin=True, args=["-suite", "start"], timeout={"quick": 600, "thorough": 1800}),
         suite("crash", "c14", 24, 240, stdin=True, args=["-suite", "crash"], timeout={"quick": 600, "thorough": 2400}),
     ],
     "search_seeds": {"quick": 3, "thorough": 2},
     "gen": [{"pkg": "extract_c14", "out": "lean/ClusterVerif/Gen/C14.lean"}],
     "lean_sources": ["ClusterVerif/Model/C14Source.lean", "ClusterVerif/Gen/C14.lean", "ClusterVerif/Model/C14.lean", "ClusterVerif/Spec/C14.lean", "ClusterVerif/Lemmas/C14.lean",
-                     "ClusterVerif/Model/C14Crash.lean", "ClusterVerif/Spec/C14Crash.lean", "ClusterVerif/Lemmas/C14Crash.lean"],
+                     "ClusterVerif/Model/C14Crash.lean", "ClusterVerif/Spec/C14Crash.lean", "ClusterVerif/Lemmas/C14Crash.lean",
+                     "ClusterVerif/Model/C14Start.lean", "ClusterVerif/Spec/C14Start.lean"],
     "rule": "pins: (pinset of 0-40 generated pins over all types/options, prior content of the target, stream damage) through "
             "Marshal/Unmarshal, SnapshotSave/OfflineState, raft and crdt state-manager export/import (and a started Raft peer on some); "
             "rot: (retention, pre-existing folder set with gaps/outside the window, 1-14 clean/save/mkdir/reconfigure operations) on real folders; "
@@ -17,10 +19,14 @@ CHECK = {
             "(also concatenated exports, a record without cid, trailing garbage, duplicate cids); crdt chain over leveldb and badger; folder-name spellings; "
             "crash: (operation clean/save/import/failing import, retention, pre-existing folder set) x every kill point of the real process (killed under strace on entering its K-th "
             "mkdirat/unlinkat/renameat), directory read back, operation restarted; (old peerstore file, new peer infos) x every kill point of SavePeerstore and every byte cut of the file; "
+            "start: (history of a REAL single-voter Raft peer: LogPin/LogUnpin/graceful restarts, ended by a kill = log and no newer snapshot, or by a shutdown; or no folder) "
+            "then the raft state manager's ImportState of a pinset onto that data folder (or nothing), offline read, old.0, and the peer STARTED on the result (restore newest snapshot + replay of the log behind it); "
             "one splitmix64 stream per case index; non-trivial = exercises a clause; distinct by case line",
     "trusted_base": ["byte-level codecs of the atoms (cid, peer id, multiaddress, strings, time) are abstracted to table indices: "
                      "the harness maps real values back to indices and reports anything it cannot map",
                      "go-datastore MapDatastore/leveldb/badger, hashicorp/raft FileSnapshotStore, libp2p memory peerstore behave as their APIs say",
+                     "hashicorp/raft v1.1.1 start-up (restore of the newest snapshot, replay of the log entries behind its index once the single voter leads) is observed through the started peer, not regenerated; "
+                     "'killed' = the data folder copied while the peer runs idle after its last commit returned",
                      "crash = death of the process between two system calls (strace inject signal=KILL on entering the K-th call); power loss / fsync ordering is outside the model; "
                      "the step order inside hashicorp/raft v1.1.1 FileSnapshotStore (tmp directory, rename) is observed by the kills, not regenerated"],
     "assumptions": ["well-formed pin: a real pin type, factors and depth within int32, expiry not after year 9999, valid UTF-8 strings",
@@ -29,9 +35,11 @@ CHECK = {
 META = {
     "text": "Kernel-checked theorems over the model of export/import, Marshal/Unmarshal, SnapshotSave/OfflineState, makeBackup rotation and the "
             "peerstore file: round-trip identities for every pinset of well-formed pins and any prior content of the target, the rotation "
-            "clauses for every pre-existing folder set and every operation sequence, the peerstore round trip and bad-line skipping. "
+            "clauses for every pre-existing folder set and every operation sequence, the peerstore round trip and bad-line skipping; "
+            "the Raft data folder as (snapshot, log): after `state import` onto ANY folder content (log only, snapshot, both, none) the started peer serves exactly the import "
+            "(import_then_start_id, with the refuted alternative that leaves the backup to SnapshotSave). "
             "The model is tied to today's code by running the real dsstate, raft snapshot/cleanup functions, cmdutils state managers and "
-            "pstoremgr on seeded cases and checking model agreement and the Lean property checker on the real outputs.",
+            "pstoremgr, and a real single-voter Raft peer (writes the folder, is killed or shut down, is started again after the import) on seeded cases and checking model agreement and the Lean property checker on the real outputs.",
     "note": "export/import is proved for pinsets without origins; a pin with origins cannot be decoded from JSON (known finding K01c). "
             "Atoms are table indices (byte codecs are C08's subject).",
     "technique": "regenerated source text of the anchored functions checked against the transcribed snapshot (rfl) + Lean 4 theorems over functional/relational models + differential correspondence with the real code",
